@@ -20,7 +20,9 @@ side returns Ok only after open_uni → write_version_frame → finish → await
 consumed by the dialer) and the dialer side only after accept_uni + a successful read_version_frame;
 connections reach ActivePeers::add / a request handler only via handle_connecting_result's Ok arm whose
 value originates from wire::handshake; the id returned to the caller is Connection::peer_id() of the
-registered connection and add_peer dominates the reply.
+registered connection and add_peer dominates the reply; inside add_peer every path to return passes
+ActivePeers::add(own id, the connection handed in) and add_peer never closes a connection itself, so
+"answered Ok" implies the reached peer is (or already was) in the connected set.
 """
 TRUSTED = ["rustls calls the configured ServerCertVerifier for every handshake", "C01's chain (identity = verified key)"]
 NOT_DECIDED = ["datagram loss during the handshake", "timing of concurrent dials", "the impostor's cryptographic inability (trusted base of C01)"]
@@ -241,6 +243,21 @@ def run(cx):
             else:
                 ob.fail("refuted", "reply/unknown", f"reply value {show(v)}", b.path, b.loc(c.bb))
         ob.require(n_ok == 1, "reply/one-success-site", f"{n_ok} success reply sites", b.path)
+        # "registered" must mean registered: inside add_peer every path to return passes ActivePeers::add(own id, the
+        # connection handed in) — afterwards either this connection or the one that won the tie-break is in the map —
+        # and add_peer itself never closes the connection (only the map's tie-break may).
+        pb = cx.body(f"{MGR}::add_peer")
+        po = Origins(pb)
+        adds = [c for c in pb.calls_to(f"{CM}::ActivePeers::add") if not pb.is_cleanup(c.bb)]
+        ob.floor(adds, 1, "ActivePeers::add in add_peer", exact=True)
+        must_pass(ob, pb, {adds[0].bb}, key="add_peer/registers-on-every-path", what="return (a path returns without ActivePeers::add)")
+        a_self = arg_origin(adds[0], 0, po)
+        a_own = arg_origin(adds[0], 1, po)
+        a_conn = strip_identity(arg_origin(adds[0], 2, po))
+        ob.require(mentions_field(a_self, "active_peers") and term_has_call(a_own, "anemo::endpoint::Endpoint::peer_id") and is_param(a_conn, "new_connection"),
+                   "add_peer/registers-the-connection", f"add_peer registers {show(a_conn)[:80]} into {show(a_self)[:60]} with own id {show(a_own)[:80]}", pb.path)
+        closes = [c for c in pb.calls() if name_matches(c.fn, ("anemo::connection::Connection::close", "quinn::connection::Connection::close")) and not pb.is_cleanup(c.bb)]
+        ob.require(not closes, "add_peer/never-closes", f"add_peer closes a connection at {[pb.loc(c.bb) for c in closes]} although the dial is answered Ok", pb.path)
         # NetworkInner::connect returns what the manager replied
         nb = cx.coroutine("anemo::network::NetworkInner::connect")
         no = Origins(nb)
